@@ -5,7 +5,7 @@
 # and evidence/replays of these runs go to a scratch directory, so neither /repo nor /verif/evidence is disturbed.
 set -u
 tier=${1:-quick}; shift || true
-names=("$@"); [ ${#names[@]} -eq 0 ] && names=($(ls /verif/seeded))
+names=("$@"); [ ${#names[@]} -eq 0 ] && names=($(cd /verif/seeded && for d in */; do [ -f "$d/meta.json" ] && echo "${d%/}"; done))
 wt=/tmp/wt-seedmatrix.$$
 out=/tmp/seedmatrix-out.$$
 git -C /repo worktree add -q --detach "$wt" HEAD || exit 2
